@@ -98,6 +98,10 @@ structure Table where
   bindings : List (BindKey × List Fd) := []
   conns : List ((Ep × Ep) × Fd) := []
   cursor : Nat := ephLo
+  /-- `PortAllocator.range` (`DEFAULT_EPHEMERAL_PORTS`; shrunk by the harness through the
+      `verif_table_set_ephemeral_range` hook in the `tiny` family) -/
+  lo : Nat := ephLo
+  hi : Nat := ephHi
 deriving Repr, Inhabited
 
 namespace Table
@@ -171,7 +175,7 @@ def allocate (lo hi cursor : Nat) (inUse : Nat → Bool) : Option Nat × Nat :=
   allocLoop lo hi cursor inUse (hi - lo + 1) cursor
 
 def Table.allocatePort (t : Table) (v6 tcp : Bool) : Option Nat × Table :=
-  let (r, c) := allocate ephLo ephHi t.cursor (t.portInUse v6 tcp)
+  let (r, c) := allocate t.lo t.hi t.cursor (t.portInUse v6 tcp)
   (r, { t with cursor := c })
 
 structure Kernel where
@@ -183,12 +187,15 @@ structure Kernel where
       exhausted) stays in the table for ever, and so does its binding.  `true` = proposed
       repair: such a child is removed at the moment it is aborted. -/
   fixReap : Bool := false
-  /-- Repair 2e36826: a segment carrying SYN or FIN that reaches an open connection and is not
+  /-- Repair 080947f: a segment carrying SYN or FIN that reaches an open connection and is not
       accepted is answered with an ACK (before: dropped silently). -/
   fixAck : Bool := false
-  /-- Repair bf8d44c: `egress_since_ack` / `retx_attempts` are reset when the handshake
+  /-- Repair 2fda244: `egress_since_ack` / `retx_attempts` are reset when the handshake
       completes (before: the first FIN inherited the counters and was retransmitted spuriously). -/
   fixRetxReset : Bool := false
+  /-- Repair 91a643a: an abort (peer RST, retransmit exhaustion) in `LastAck` / `Closing` closes
+      quietly: state `Closed` without the `reset` / `timed_out` mark. -/
+  fixQuiet : Bool := false
 deriving Repr, Inhabited
 
 inductive Err
@@ -397,7 +404,9 @@ def handleOnConn (k : Kernel) (fd : Fd) (l r : Ep) (syn ack fin rst : Bool) : Ke
     if k.fixReap && (match k.tbl.get fd with
         | some s => (match s.tcb with | some tc => tc.state == .synRecv | none => false)
         | none => false) then { k with tbl := k.tbl.remove fd }
-    else k.modTcb fd fun tc => { tc with state := .closed, reset := true }
+    else k.modTcb fd fun tc =>
+      { tc with state := .closed,
+                reset := if k.fixQuiet && (tc.state == .lastAck || tc.state == .closing) then tc.reset else true }
   else
     match k.tbl.get fd with
     | none => k
@@ -467,7 +476,9 @@ def checkRetx (k : Kernel) : Kernel :=
         else if tc.esa + 1 < retxThreshold then k.modTcb s.fd fun tc => { tc with esa := tc.esa + 1 }
         else if tc.retx ≥ retxMax then
           if k.fixReap && tc.state == .synRecv then { k with tbl := k.tbl.remove s.fd }
-          else k.modTcb s.fd fun tc => { tc with esa := tc.esa + 1, state := .closed, timedOut := true }
+          else k.modTcb s.fd fun tc =>
+            { tc with esa := tc.esa + 1, state := .closed,
+                      timedOut := if k.fixQuiet && (tc.state == .lastAck || tc.state == .closing) then tc.timedOut else true }
         else
           let k := k.modTcb s.fd fun tc =>
             { tc with esa := 0, retx := tc.retx + 1, finSent := if handshake then tc.finSent else false }
@@ -610,10 +621,14 @@ deriving Repr, Inhabited
 namespace Fabric
 
 def addHost (f : Fabric) (addrs : List Ip) (fixReap : Bool := false) (fixAck : Bool := false)
-    (fixRetxReset : Bool := false) : Fabric :=
+    (fixRetxReset : Bool := false) (fixQuiet : Bool := false) : Fabric :=
   let id := f.hosts.length
-  { hosts := f.hosts ++ [{ addrs := addrs.eraseDups, fixReap := fixReap, fixAck := fixAck, fixRetxReset := fixRetxReset }],
+  { hosts := f.hosts ++ [{ addrs := addrs.eraseDups, fixReap := fixReap, fixAck := fixAck, fixRetxReset := fixRetxReset, fixQuiet := fixQuiet }],
     ipToHost := f.ipToHost ++ addrs.map fun a => (a, id) }
+
+/-- `PortAllocator::new(lo..=hi)` on every host (verification hook, before any socket exists). -/
+def setEph (f : Fabric) (lo hi : Nat) : Fabric :=
+  { f with hosts := f.hosts.map fun k => { k with tbl := { k.tbl with lo := lo, hi := hi, cursor := lo } } }
 
 def hostForIp (f : Fabric) (ip : Ip) : Option Nat :=
   (f.ipToHost.find? (·.1 == ip)).map (·.2)
